@@ -92,12 +92,13 @@ partial def value : P Obj := do
     expect '~'
     let clo ← takeWhileP fun c => c == '0' || c == '1'
     expect '~'
-    let rep ← takeWhileP fun c => c == '0' || c == '1' || c == 'c'
+    let rep ← takeWhileP fun c => c == '0' || c == '1' || c == 'c' || c == 'a'
     let name ← if nm.isEmpty then pure none else some <$> strOfBytes nm
-    -- `env` carries the two flags of the dump: +1 = defined inside a function call; +2 / +4 = the printed
-    -- form parses back to the same tree only up to comments / not at all
+    -- `env` carries the two flags of the dump: +1 = defined inside a function call; +2 / +4 / +8 = the printed
+    -- form parses back to the same tree only up to comments / only up to re-association of chains of one
+    -- associative operator (`a+(b+c)` printed `a+b+c`: the recorded printer finding) / not at all (no class)
     pure (.func { name := name, params := [], variadic := false, lambda := name.isNone, key := key, body := .none,
-                  env := (if clo == "1" then 1 else 0) + (if rep == "c" then 2 else if rep == "0" then 4 else 0) })
+                  env := (if clo == "1" then 1 else 0) + (if rep == "c" then 2 else if rep == "a" then 4 else if rep == "0" then 8 else 0) })
   | some 'X' => advance; let n ← takeWhileP fun c => c.isAlphanum || c == '_' || c == '.'; pure (.ext n)
   | some 'E' => advance; pure (.error "")
   | some 'Q' => advance; pure (.quote .none)
@@ -239,6 +240,7 @@ partial def sameVal : Obj → Obj → Bool
   | .array a, .array b => a.length == b.length && (a.zip b).all fun (x, y) => sameVal x y
   | .map _ a, .map _ b => a.length == b.length && (a.zip b).all fun ((k, v), (k', v')) => sameVal k k' && sameVal v v'
   | .func f, .func g => f.name == g.name && f.key == g.key
+  | .ext a, .ext b => a == b
   | _, _ => false
 end
 
@@ -312,6 +314,9 @@ def classOf (o : Obs) (v : Obj) : String :=
   if anyObj (fun x => match x with | .func f => f.env % 2 == 1 | _ => false) v then "function-captured-variables-not-saved"
   else if anyObj (fun x => match x with | .func f => f.env / 4 == 1 | _ => false) v then "function-compact-text-reparses-differently"
   else if anyObj (fun x => match x with | .func f => f.env / 2 == 1 | _ => false) v then "function-comments-dropped"
+  -- an extension function INSIDE an array or a map is printed with its signature and help (top level: by name, repaired)
+  else if (match v with | .array _ | .map _ _ => true | _ => false) && anyObj (fun x => match x with | .ext _ => true | _ => false) v then
+    "extension-value-inside-container-not-loadable"
   else if anyObj (fun x => match x with | .float b => isInfNaN b | _ => false) v &&
       o.globals.any (fun b =>
         (b.name == toBytes "Inf" && !(match b.val with | .float x => x == 0x7FF0000000000000 | _ => false)) ||
@@ -325,6 +330,8 @@ def hasFunc (v : Obj) : Bool := anyObj (fun x => match x with | .func _ => true 
 functions / calls are explained by a closure, or by a classified data binding of the same case -/
 def caseClass (o : Obs) (vd : Verdict) : String :=
   if vd.ok then "" else
+  -- one line per binding and the length limit are properties of SaveGlobals alone: no recorded finding explains them
+  if vd.reasons.contains "one-line-per-binding" || vd.reasons.contains "limit" then "" else
   -- when the whole-file load stopped at an error every binding is missing there: only the line-by-line
   -- load tells which values did not survive
   let dataFail := (if o.whole.errs > 0 then vd.failingLines else vd.failing).filter fun b => !hasFunc b.val
@@ -333,7 +340,8 @@ def caseClass (o : Obs) (vd : Verdict) : String :=
   -- a pre-seeded identifier the session deleted is back in every fresh state
   let deleted := ["nil", "null", "NaN", "Inf", "printf", "abs", "keys", "log2", "str"].any fun n =>
     (lookupB o.globals (toBytes n)).isNone
-  if deleted && vd.failing.isEmpty then "deleted-preseeded-identifier-comes-back"
+  if deleted && vd.failing.isEmpty && vd.reasons.all (fun r => r == "second-save" || r == "files") then
+    "deleted-preseeded-identifier-comes-back"
   else if dataClasses.any (· == "") then ""
   else match dataClasses with
     | c :: _ => c
